@@ -376,15 +376,17 @@ auto_entropy (void)
   for (unsigned i = 0; i < sizeof pf / sizeof *pf; i++)
     {
       char prev[CRYPT_GENSALT_OUTPUT_SIZE] = "";
-      for (int rep = 0; rep < 3; rep++)
+      /* with rbytes == NULL the nrbytes argument carries no information: every value must behave like 0 */
+      static const int nrb_args[] = { 0, 0, 0, 1, 3, 16, 64, 255, 256, 257, 1000, 65536, -1 };
+      for (int rep = 0; rep < (int) (sizeof nrb_args / sizeof *nrb_args); rep++)
         {
           char out[CRYPT_GENSALT_OUTPUT_SIZE], out2[CRYPT_GENSALT_OUTPUT_SIZE];
           long calls0 = vh_ent_calls;
           uint64_t ctr = vh_ent_counter;
-          char *r = crypt_gensalt_rn (pf[i], 0, 0, 0, out, sizeof out);
+          char *r = crypt_gensalt_rn (pf[i], 0, 0, nrb_args[rep], out, sizeof out);
           vh_stat ("evaluations", 1);
           vh_stat ("auto_calls", 1);
-          snprintf (cj, sizeof cj, "{\"prefix\":%s,\"rbytes\":null,\"repetition\":%d,\"replay\":\"auto\"", vh_jstr (pf[i]), rep);
+          snprintf (cj, sizeof cj, "{\"prefix\":%s,\"rbytes\":null,\"nrbytes\":%d,\"repetition\":%d,\"replay\":\"auto\"", vh_jstr (pf[i]), nrb_args[rep], rep);
           if (!r)
             {
               snprintf (sig, sizeof sig, "auto-entropy-failed/prefix=%s", pf[i] ? pf[i] : "(null)");
